@@ -617,7 +617,8 @@ impl gen::CELVisitorCompat<'_> for Parser {
             }
             Some(member) => {
                 if ctx.ops.len() % 2 == 0 {
-                    self.visit(member.as_ref());
+                    // an even number of prefix operators cancels
+                    return self.visit(member.as_ref());
                 }
                 let op_id = self.helper.next_id(&ctx.ops[0]);
                 let target = self.visit(member.as_ref());
@@ -633,7 +634,8 @@ impl gen::CELVisitorCompat<'_> for Parser {
             }
             Some(member) => {
                 if ctx.ops.len() % 2 == 0 {
-                    self.visit(member.as_ref());
+                    // an even number of prefix operators cancels
+                    return self.visit(member.as_ref());
                 }
                 let op_id = self.helper.next_id(&ctx.ops[0]);
                 let target = self.visit(member.as_ref());
